@@ -24,6 +24,10 @@ def one(job):
                 bad.append("%s: %s" % (v["key"], v["desc"][:200]))
     shutil.rmtree(out, ignore_errors=True)
     return p, seed, dt, bad
+for p in ids:   # rebuild every harness against the current tree first
+    b = os.path.join(V, "build", p); os.makedirs(b, exist_ok=True)
+    rc, out, exe, cmd = vcheck.build_harness(p, vcheck.load_meta(p), b)
+    if rc: print("BUILD FAILED", p, out[-500:])
 jobs = [(p, s) for s in range(first, last + 1) for p in ids]
 nbad = 0
 with ThreadPoolExecutor(max_workers=6) as ex:
